@@ -81,25 +81,65 @@ func endsInReturn(list []ast.Stmt) bool {
 	return ok
 }
 
-// actionCode classifies what a rejection branch does: 1 = goWeb(); return · 2 = conn.Close(); return ·
-// 3 = return without relaying, closing or answering · 0 = anything else
+// touchesPeer: a call that relays, answers or otherwise acts on the peer connection
+func touchesPeer(c string) bool {
+	return strings.Contains(c, "goWeb") || strings.Contains(c, "finishHandshake") || regexp.MustCompile(`^(conn|preparedConn)\.`).MatchString(c)
+}
+
+// actionCode classifies what a rejection branch does with the peer connection: 1 = goWeb(); return · 2 = conn.Close(); return ·
+// 3 = return without relaying, closing or answering · 0 = anything else.  Calls that do not touch the peer connection
+// (bookkeeping such as user.CloseSession(…)) may precede the action.
 func actionCode(list []ast.Stmt, needReturn bool) int {
-	calls := nonLogCalls(list)
 	if needReturn && !endsInReturn(list) {
 		return 0
 	}
-	if len(calls) == 1 && calls[0] == "goWeb()" {
-		return 1
-	}
-	if len(calls) == 1 && calls[0] == "conn.Close()" {
-		return 2
-	}
-	for _, c := range calls {
-		if strings.Contains(c, "goWeb") || strings.Contains(c, "finishHandshake") || regexp.MustCompile(`^(conn|preparedConn)\.`).MatchString(c) {
-			return 0
+	var acts []string
+	for _, c := range nonLogCalls(list) {
+		if touchesPeer(c) {
+			acts = append(acts, c)
 		}
 	}
-	return 3
+	switch {
+	case len(acts) == 0:
+		return 3
+	case len(acts) == 1 && acts[0] == "goWeb()":
+		return 1
+	case len(acts) == 1 && acts[0] == "conn.Close()":
+		return 2
+	}
+	return 0
+}
+
+// errBranchAfter returns the `if err != nil {…}` that immediately follows statement k of list
+func errBranchAfter(list []ast.Stmt, k int) *ast.IfStmt {
+	if k < 0 || k+1 >= len(list) {
+		return nil
+	}
+	i, ok := list[k+1].(*ast.IfStmt)
+	if !ok || show(i.Cond) != "err != nil" || i.Else != nil {
+		return nil
+	}
+	return i
+}
+
+// closesOnly: the branch ends in return, and the only things it does to the two connections are Close() calls;
+// reports which of conn / webConn it closes
+func closesOnly(list []ast.Stmt) (ok, peer, target bool) {
+	if !endsInReturn(list) {
+		return false, false, false
+	}
+	ok = true
+	for _, c := range nonLogCalls(list) {
+		switch {
+		case c == "conn.Close()":
+			peer = true
+		case c == "webConn.Close()":
+			target = true
+		case touchesPeer(c) || strings.HasPrefix(c, "webConn.") || strings.Contains(c, "common.Copy"):
+			ok = false
+		}
+	}
+	return
 }
 
 func factsC09() {
@@ -490,6 +530,39 @@ func factsC09() {
 		boolFact(g, "goWebShape", iDial >= 0 && iW > iDial && iC1 > iW && iC2 > iW && count(gevs, "go", `.`) == 2,
 			"dial RedirDialer; webConn.Write(…); go Copy(webConn, conn); go Copy(conn, webConn)")
 		natFact(g, "goWebPeerWrites", len(allCalls(goWeb.Body, `^conn\.Write$`)), "conn.Write calls in goWeb (server-originated bytes)")
+		// the two fault points of goWeb: what happens to the peer connection (and to the half-open target connection)
+		// when the redirect target cannot be dialled / refuses the first write
+		gl := goWeb.Body.List
+		kDial, kWrite := -1, -1
+		for k, st := range gl {
+			if a, ok := st.(*ast.AssignStmt); ok && len(a.Rhs) == 1 {
+				switch t := show(a.Rhs[0]); {
+				case strings.HasPrefix(t, "sta.RedirDialer.Dial("):
+					kDial = k
+				case strings.HasPrefix(t, "webConn.Write("):
+					kWrite = k
+				}
+			}
+		}
+		if br := errBranchAfter(gl, kDial); br != nil {
+			if ok, peer, _ := closesOnly(br.Body.List); ok {
+				boolFact(g, "goWebDialErrClosesPeer", peer, "goWeb, RedirDialer.Dial error: "+strings.Join(nonLogCalls(br.Body.List), "; ")+"; return")
+			} else {
+				unrec(g, "goWebDialErrClosesPeer", "the Dial error branch of goWeb does something other than closing and returning")
+			}
+		} else {
+			unrec(g, "goWebDialErrClosesPeer", "if err != nil {…} right after webConn, err := sta.RedirDialer.Dial(…) not found")
+		}
+		if br := errBranchAfter(gl, kWrite); br != nil {
+			if ok, peer, target := closesOnly(br.Body.List); ok {
+				boolFact(g, "goWebWriteErrClosesPeer", peer, "goWeb, first webConn.Write error: "+strings.Join(nonLogCalls(br.Body.List), "; ")+"; return")
+				boolFact(g, "goWebWriteErrClosesTarget", target, "goWeb, first webConn.Write error: the half-open target connection is closed")
+			} else {
+				unrec(g, "goWebWriteErrClosesPeer", "the Write error branch of goWeb does something other than closing and returning")
+			}
+		} else {
+			unrec(g, "goWebWriteErrClosesPeer", "if err != nil {…} right after _, err = webConn.Write(…) not found")
+		}
 	}
 	// branches
 	code := func(name string, k int, src string) {
